@@ -3,7 +3,7 @@
 //! harness: each directed link is a FIFO of the wire frames node A's behaviour queued for B,
 //! delivered as B's inbound handler events through the real codec).
 
-use crate::meshsys::make_config;
+use crate::meshsys::{make_config_v, score_params};
 use crate::node::{parse_frame, GsNode, Kind};
 use kit::ids::peer;
 use libp2p_gossipsub as gs;
@@ -13,8 +13,8 @@ use std::collections::{BTreeMap, BTreeSet, VecDeque};
 
 pub const META: Meta = Meta {
     level: "model_checking",
-    rule: "configurations = topology (all connected graphs on 3 nodes; path/cycle/star/complete on 4) x publisher(s) of 1 or 2 messages (every node / ordered pair of nodes) x flood_publish on/off; per configuration a deterministic set-up (connect, subscribe, exchange subscriptions and GRAFTs to quiescence, one heartbeat per node; every link must then be a mesh link) followed by every execution with <= bound deviations from the default schedule (default: deliver the globally oldest in-flight frame, publish the 2nd message when the 1st has settled, no heartbeat; deviation: deliver the head of another link first, publish earlier, run a heartbeat at some node). Non-trivial = executions with >= 1 deviation, distinct by (configuration, choice sequence).",
-    explanation: "E1 stateless deviation-bounded DFS; every execution runs 3-4 real Behaviours with owned entropy. Oracle at quiescence: every subscribed node except the publisher emitted exactly one Event::Message per message, the publisher none; during the run no frame carrying message m is queued by node n towards a peer from which n has already received m, nor towards m's source.",
+    rule: "configurations = topology (all connected graphs on 3 nodes; path/cycle/star/complete on 4) x publisher(s) of 1 or 2 messages (every node / ordered pair of nodes) x flood_publish on/off x {no application validation; validate_messages with scoring off; validate_messages with scoring on}; per configuration a deterministic set-up (connect, subscribe, exchange subscriptions and GRAFTs to quiescence, one heartbeat per node; every link must then be a mesh link) followed by every execution with <= bound deviations from the default schedule (default: deliver the globally oldest in-flight frame, then let applications report Accept for pending messages, publish the 2nd message when the 1st has settled, no heartbeat; deviation: deliver the head of another link first, report a verdict or publish earlier, run a heartbeat at some node). Non-trivial = executions with >= 1 deviation, distinct by (configuration, choice sequence).",
+    explanation: "E1 stateless deviation-bounded DFS; every execution runs 3-4 real Behaviours with owned entropy. Oracle at quiescence: every subscribed node except the publisher emitted exactly one Event::Message per message, the publisher none; during the run no frame carrying message m is queued by node n towards a peer from which n has already received m (any of them, duplicates included, also when forwarding is deferred until the application's Accept), nor towards m's source.",
     assumptions: &["<= 4 nodes (not a dozen): larger networks are out of exhaustive reach and are not claimed", "per-link FIFO (streams), reordering only across links", "no topology or subscription change during the explored phase; virtual time does not advance (well within the duplicate-cache lifetime)", "messages are unsigned with author + random seqno (ValidationMode::Permissive)"],
 };
 
@@ -26,6 +26,9 @@ static DUP_RECEPTIONS: AtomicU64 = AtomicU64::new(0);
 static MSG_FRAMES: AtomicU64 = AtomicU64::new(0);
 static HEARTBEATS: AtomicU64 = AtomicU64::new(0);
 static EARLY_PUBLISH: AtomicU64 = AtomicU64::new(0);
+static VALIDATIONS: AtomicU64 = AtomicU64::new(0);
+/// a node received a duplicate while its first copy was still awaiting application validation
+static DUP_WHILE_PENDING: AtomicU64 = AtomicU64::new(0);
 
 fn edges(topo: &str) -> (usize, Vec<(usize, usize)>) {
     match topo {
@@ -59,14 +62,22 @@ struct Net {
     delivered: BTreeMap<(usize, Vec<u8>), u32>,
     frames_delivered: u64,
     violation: Option<String>,
+    /// application validates messages before they are forwarded
+    validate: bool,
+    /// per node: messages handed to the application and not yet reported back (id, received from, data)
+    pending: Vec<VecDeque<(gs::MessageId, libp2p_identity::PeerId, Vec<u8>)>>,
 }
 
 impl Net {
-    fn new(topo: &str, flood: bool) -> Net {
+    fn new(topo: &str, flood: bool, validate: bool, scoring: bool) -> Net {
         let (n, es) = edges(topo);
         let mut nodes = Vec::new();
         for i in 0..n {
-            let beh = gs::Behaviour::new(gs::MessageAuthenticity::Author(peer(i as u8)), make_config(4, flood)).expect("behaviour");
+            let mut beh = gs::Behaviour::new(gs::MessageAuthenticity::Author(peer(i as u8)), make_config_v(4, flood, validate)).expect("behaviour");
+            if scoring {
+                let (sp, st) = score_params();
+                beh.with_peer_score(sp, st).expect("score params");
+            }
             nodes.push(GsNode::new(beh));
         }
         let mut nbrs = vec![vec![]; n];
@@ -77,7 +88,7 @@ impl Net {
             links.insert((*a, *b), VecDeque::new());
             links.insert((*b, *a), VecDeque::new());
         }
-        let mut net = Net { nodes, nbrs, links, seq: 0, source: BTreeMap::new(), received_from: BTreeMap::new(), delivered: BTreeMap::new(), frames_delivered: 0, violation: None };
+        let mut net = Net { nodes, nbrs, links, seq: 0, source: BTreeMap::new(), received_from: BTreeMap::new(), delivered: BTreeMap::new(), frames_delivered: 0, violation: None, validate, pending: vec![VecDeque::new(); n] };
         for (a, b) in &es {
             net.nodes[*a].connect(peer(*b as u8), true, Kind::G11);
             net.nodes[*b].connect(peer(*a as u8), false, Kind::G11);
@@ -117,8 +128,11 @@ impl Net {
         }
         // application events
         for ev in std::mem::take(&mut self.nodes[a].app_events) {
-            if let gs::Event::Message { message, .. } = ev {
+            if let gs::Event::Message { message, message_id, propagation_source } = ev {
                 *self.delivered.entry((a, message.data.clone())).or_insert(0) += 1;
+                if self.validate {
+                    self.pending[a].push_back((message_id, propagation_source, message.data.clone()));
+                }
             }
         }
         self.nodes[a].notes.clear();
@@ -133,6 +147,9 @@ impl Net {
                 if !e.is_empty() || self.source.get(&m.data) == Some(&b) {
                     // the receiver already has this message: the duplicate cache must absorb it
                     DUP_RECEPTIONS.fetch_add(1, Relaxed);
+                    if self.pending[b].iter().any(|p| p.2 == m.data) {
+                        DUP_WHILE_PENDING.fetch_add(1, Relaxed);
+                    }
                 }
                 e.insert(a);
             }
@@ -163,6 +180,15 @@ impl Net {
         }
     }
 
+    /// the application of node `a` accepts the oldest message it was handed
+    fn validate_oldest(&mut self, a: usize) {
+        let Some((id, from, _)) = self.pending[a].pop_front() else { return };
+        VALIDATIONS.fetch_add(1, Relaxed);
+        self.nodes[a].beh.report_message_validation_result(&id, &from, gs::MessageAcceptance::Accept);
+        self.nodes[a].pump();
+        self.collect(a);
+    }
+
     fn publish(&mut self, p: usize, data: &[u8]) -> Result<(), String> {
         self.source.insert(data.to_vec(), p);
         let r = self.nodes[p].beh.publish(gs::IdentTopic::new(T).hash(), data.to_vec());
@@ -175,6 +201,8 @@ impl Net {
 #[derive(Clone, Copy, PartialEq, Debug)]
 enum Ev {
     Deliver(usize, usize),
+    /// the application of this node reports `Accept` for the oldest message it was handed
+    Validate(usize),
     Publish,
     Heartbeat(usize),
 }
@@ -184,7 +212,9 @@ fn one(cfg: &Value) -> Result<(), String> {
     let topo = cfg["topo"].as_str().unwrap();
     let flood = cfg["flood"].as_bool().unwrap();
     let pubs: Vec<usize> = cfg["pubs"].as_array().unwrap().iter().map(|v| v.as_u64().unwrap() as usize).collect();
-    let mut net = Net::new(topo, flood);
+    let validate = cfg["validate"].as_bool().unwrap_or(false);
+    let scoring = cfg["scoring"].as_bool().unwrap_or(false);
+    let mut net = Net::new(topo, flood, validate, scoring);
     let n = net.nodes.len();
     // precondition of the property ("delivered to every subscriber" is promised on a mesh that
     // spans the graph): after set-up every link is a mesh link in both directions
@@ -213,6 +243,13 @@ fn one(cfg: &Value) -> Result<(), String> {
             return Err("horizon :: more than 400 events".into());
         }
         let mut menu: Vec<Ev> = net.heads().into_iter().map(|(a, b)| Ev::Deliver(a, b)).collect();
+        // default order: deliveries (oldest first), then pending application verdicts, then the
+        // next publish; a verdict given while frames are still in flight is a deviation
+        for i in 0..n {
+            if !net.pending[i].is_empty() {
+                menu.push(Ev::Validate(i));
+            }
+        }
         let work_left = !menu.is_empty() || next_pub < pubs.len();
         if !work_left {
             break;
@@ -228,6 +265,7 @@ fn one(cfg: &Value) -> Result<(), String> {
         let c = choice::choose_l(menu.len(), 1, "event");
         match menu[c] {
             Ev::Deliver(a, b) => net.deliver(a, b),
+            Ev::Validate(i) => net.validate_oldest(i),
             Ev::Publish => {
                 if !net.heads().is_empty() {
                     EARLY_PUBLISH.fetch_add(1, Relaxed);
@@ -293,24 +331,33 @@ fn body(cfg: &Value) -> impl FnMut(&mut Chooser) -> Result<(), String> + '_ {
     }
 }
 
-fn configs(_ctx: &Ctx) -> Vec<Value> {
+fn configs(ctx: &Ctx) -> Vec<Value> {
     let mut v = Vec::new();
     let three = ["3-path-0", "3-path-1", "3-path-2", "3-triangle"];
     let four = ["4-path", "4-cycle", "4-star", "4-complete"];
-    for flood in [false, true] {
-        for t in three {
-            for a in 0..3 {
-                v.push(json!({"topo": t, "flood": flood, "pubs": [a]}));
-                for b in 0..3 {
-                    v.push(json!({"topo": t, "flood": flood, "pubs": [a, b]}));
+    // (application validates before forwarding, peer scoring active)
+    for (validate, scoring) in [(false, false), (true, false), (true, true)] {
+        // quick: the validating modes with one publish only
+        let two = !(ctx.quick() && validate);
+        for flood in [false, true] {
+            for t in three {
+                for a in 0..3 {
+                    v.push(json!({"topo": t, "flood": flood, "pubs": [a], "validate": validate, "scoring": scoring}));
+                    if two {
+                        for b in 0..3 {
+                            v.push(json!({"topo": t, "flood": flood, "pubs": [a, b], "validate": validate, "scoring": scoring}));
+                        }
+                    }
                 }
             }
-        }
-        for t in four {
-            for a in 0..4 {
-                v.push(json!({"topo": t, "flood": flood, "pubs": [a]}));
-                for b in 0..4 {
-                    v.push(json!({"topo": t, "flood": flood, "pubs": [a, b]}));
+            for t in four {
+                for a in 0..4 {
+                    v.push(json!({"topo": t, "flood": flood, "pubs": [a], "validate": validate, "scoring": scoring}));
+                    if two {
+                        for b in 0..4 {
+                            v.push(json!({"topo": t, "flood": flood, "pubs": [a, b], "validate": validate, "scoring": scoring}));
+                        }
+                    }
                 }
             }
         }
@@ -342,8 +389,10 @@ pub fn run(ctx: &Ctx) -> Outcome {
             if !ctx.mine(i as u64) {
                 continue;
             }
+            let validating = cfg["validate"].as_bool().unwrap_or(false);
             let bound = if cfg["topo"].as_str().unwrap().starts_with('3') {
-                bound3
+                // validating modes have longer traces (verdict events): one deviation less in thorough
+                if validating && !ctx.quick() { bound3 - 1 } else { bound3 }
             } else if cfg["pubs"].as_array().unwrap().len() == 1 {
                 bound4_single
             } else {
@@ -371,9 +420,11 @@ pub fn run(ctx: &Ctx) -> Outcome {
         out.count("duplicate_receptions", DUP_RECEPTIONS.load(Relaxed));
         out.count("heartbeats_explored", HEARTBEATS.load(Relaxed));
         out.count("publish_interleaved_with_inflight", EARLY_PUBLISH.load(Relaxed));
+        out.count("application_verdicts", VALIDATIONS.load(Relaxed));
+        out.count("duplicate_received_while_awaiting_validation", DUP_WHILE_PENDING.load(Relaxed));
         out
     });
-    for g in ["message_frames_delivered", "duplicate_receptions", "heartbeats_explored", "publish_interleaved_with_inflight"] {
+    for g in ["message_frames_delivered", "duplicate_receptions", "heartbeats_explored", "publish_interleaved_with_inflight", "application_verdicts", "duplicate_received_while_awaiting_validation"] {
         if out.get(g) == 0 {
             out.machinery(format!("vacuity guard: counter '{g}' is zero"));
         }
